@@ -244,3 +244,27 @@ PROPS["C02"] = {
     ],
     "design_ref": "DESIGN.md §7 C02",
 }
+
+PROPS["C12"] = {
+    "title": "Connection lifecycle",
+    "module": "Theorems.C12",
+    "theorems": [
+        "Amqp.Conn.open_phase",
+        "Amqp.Conn.close_is_last",
+        "Amqp.Conn.at_most_one_close",
+        "Amqp.Conn.closing_step",
+        "Amqp.Conn.peer_close_answered",
+        "Amqp.Conn.discarding_ignores",
+        "Amqp.Conn.discarding_wait_ignores",
+        "Amqp.Conn.illegal_frame_refused",
+        "Amqp.Conn.local_close",
+        "Amqp.Conn.local_close_then_peer_close",
+    ],
+    "harness": ["connlife"],
+    "gen_files": ["Amqp/Gen/Fsm.lean"],
+    "technique": "Lean 4 proof by induction over event sequences with a state invariant discharged by exhaustive case analysis over the generated transition tables; engine-level differential runs of a real client connection against a scripted peer",
+    "level_text": "Machine-checked for every sequence of events of any length (peer frames legal or illegal in the current state, end of stream, local close / close-with-error / repeated close requests, session begins and session frames, heartbeats): the header and the open are written first and never again; a close frame, if written, is the last frame written, so there is at most one; once it is written no event makes the endpoint write anything; a peer's close is answered with a close and reported with the peer's error; after closing with an error every frame but the close is ignored; a frame illegal for the opened state is answered by a close with an error and is not handed to a session; a clean close is reported clean whatever was still in flight. The per-state behaviour (transition tables of Connection, the arms taken by on_heartbeat / close_connection / forward_to_session / on_outgoing_session_frames, the states in which incoming frames and close requests are dropped, and whether send_close checks the state before writing) is regenerated from connection/mod.rs and connection/engine.rs on every run; the hand-written composition (event loop, on_error, wait_for_remote_close) is tied to the code by differential runs comparing the frames on the wire and close()'s result event by event.",
+    "level_note": "Trusted: Lean kernel; rs2lean's table extraction (gen_fsm.rs); hand-written Amqp/Conn.lean composition; harness + scripted peer. The pipelined-open states (OpenPipe, OpenClosePipe, ClosePipe before the peer's open) are not reached by ConnectionEngine::open and are outside the invariant (RS); the listener side's open is exercised by C19/C17 runs only. Sessions are abstract: frames a session emits are fed to the model as events. A peer whose first frame is not an open makes open() wait for a close that never comes until the transport ends: reported under C15.",
+    "assumptions": COMMON_ASSUME + ["tokio::select! takes up one ready source at a time (events are sequential)"],
+    "design_ref": "DESIGN.md §7 C12",
+}
